@@ -81,6 +81,12 @@ def gen(run):
     for _ in range(40 if quick else 400):
         ops = [rng.choice(pool) for _ in range(rng.randint(1, 8))]
         hist.append('r ' + ' '.join(hx(o) for o in ops))
+    # a configuration comes and goes in the middle of the history: registration is refused while it is live and works again afterwards,
+    # and the list keeps showing exactly what was registered
+    for k in range(3):
+        hist.append('R ' + hx(b'live_try_%d' % k))
+        hist.append('r ' + ' '.join(hx(o) for o in [b'after_cfg_%d' % k, b'_app_def', rng.choice(pool)]))
+        hist.append('b %s %s %s' % (hx(b'rpc'), hx(b'late%d' % k), hx(b'x')))
     # a long history: several hundred distinct names, then every earlier name again (the registry must hand back the same tag
     # object however much it has grown in between)
     many = [('t%03d_x' % i).encode() for i in range(150 if quick else 1500)]
